@@ -429,6 +429,7 @@ def run(ctx):
             ctx.unknown('R18k', m, sloops[0], 'too many paths', construct='split_at_node: placement')
         else:
             bad = None
+            bad_bound = [None]
             n_paths = 0
             for cs in pcs:
                 if cs.kind not in ('end', 'continue'):
@@ -437,19 +438,37 @@ def run(ctx):
                     continue
                 n_paths += 1
                 tr_ = [t_ for t_ in cs.env.get('#trace', ()) if isinstance(t_[0], ast.Call)]
-                placed = any(isinstance(x, ast.Name) and x.id == lv_ for t_ in tr_ for a_ in t_[0].args
+                # (the substituted call: a part built in a local first, `c = [n] if keep else []; parts.append(c)`)
+                placed = any(isinstance(x, ast.Name) and x.id == lv_ for t_ in tr_ for a_ in t_[1].args
                              for x in ast.walk(a_))
-                newpart = any(isinstance(a_, ast.List) for t_ in tr_ for a_ in t_[0].args)
+                newpart = any(isinstance(a_, ast.List) for t_ in tr_ for a_ in t_[1].args)
                 facts = symex.facts_of(cs.conds, cs.env)
                 isnone = ('%s is None' % lv_, True) in facts
                 if not (placed or newpart or isnone) and bad is None:
                     bad = (cs, 'the node is neither appended to a part nor the separator of a new part')
+                # a path that starts a new part also counts it against max_split
+                started = any(call_name(t_[1]) == 'append' and t_[1].args and isinstance(t_[1].args[0], ast.List)
+                              and not (t_[1].args[0].elts and unparse(call_recv(t_[1]) or ast.Constant(None)).endswith(']'))
+                              for t_ in tr_)
+                if started:
+                    bounded = any('max_split' in unparse(a_) and 'len(' in unparse(a_)
+                                  for t2_, p2_ in cs.conds for a_, ap_ in symex._atoms(t2_, p2_)) or any(
+                        'max_split' in unparse(t2_) and 'len(' in unparse(t2_) for t2_, p2_ in cs.conds)
+                    if not bounded and bad_bound[0] is None:
+                        bad_bound[0] = cs
             ctx.decide('R18k', bad is None and n_paths > 0, m, sloops[0],
                        'every node is appended, starts a new part, or is a skipped None (%d path(s))' % n_paths,
                        'split_at_node: on the path [%s] %s: the node disappears from the result (separators met '
                        'after max_split was reached are dropped from the remainder, so the parts no longer '
                        'reproduce the list)' % (' & '.join(bad[0].cond_src())[:200] if bad else '', bad[1] if bad else ''),
                        construct='split_at_node: placement')
+
+            ctx.decide('R18k', bad_bound[0] is None, m, sloops[0],
+                       'every path that starts a new part tests the number of parts against max_split',
+                       'split_at_node starts a new part on the path [%s] without comparing the number of parts with max_split: '
+                       'with keep_separators=True every separator splits, whatever max_split says'
+                       % (' & '.join(bad_bound[0].cond_src())[:160] if bad_bound[0] else ''),
+                       construct='split_at_node: max_split on every splitting path')
 
     # ---- R18l: the walker's node-list factory needs its parsing_state keyword
     ctx.rule('R18l', 'every call of a node-list factory that may be the walker\'s make_nodelist() (a local bound to '
@@ -627,6 +646,32 @@ def run(ctx):
                        'between a separator and a following group or macro) is dropped from the parts'
                        % (short(cs.sub.args[0], 40), ' and '.join(o_[:60] for o_ in odd)),
                        construct='split_at_chars: chunk %s' % short(cs.sub.args[0], 40))
+    # ---- R18u: the characters of a node list are collected in document order
+    ctx.rule('R18u', '_get_content_as_chars (the key of a key-value pair, get_content_as_chars()) takes the contents of a group at '
+                     'the place of the group: the function either calls itself on the group\'s list where it meets the group, or '
+                     'puts the children at the FRONT of its work list; children appended to the end of a work list are read '
+                     'after everything that follows the group (`a{,}b` gives `ab,`)', 1)
+    gca = m.functions.get('_get_content_as_chars')
+    if gca is None:
+        ctx.unknown('R18u', m, None, '_get_content_as_chars not found', construct='_get_content_as_chars: order')
+    else:
+        worklists = set()
+        for c_ in ast.walk(gca):
+            if isinstance(c_, ast.Call) and call_name(c_) == 'pop' and isinstance(call_recv(c_), ast.Name) and \
+                    any(isinstance(p_, (ast.While, ast.For)) for p_ in parents(c_)):
+                worklists.add(call_recv(c_).id)
+        for l_ in ast.walk(gca):
+            if isinstance(l_, ast.For) and isinstance(l_.iter, ast.Name):
+                worklists.add(l_.iter.id)
+        deferred = [c_ for c_ in ast.walk(gca) if isinstance(c_, ast.Call) and call_name(c_) in ('extend', 'append')
+                    and isinstance(call_recv(c_), ast.Name) and call_recv(c_).id in worklists
+                    and any(isinstance(p_, (ast.While, ast.For)) for p_ in parents(c_))]
+        ctx.decide('R18u', not deferred, m, deferred[0] if deferred else gca,
+                   'group contents are taken in place (recursion, or insertion at the front of the work list)',
+                   '_get_content_as_chars puts the children of a group at the END of the list it is working through (%s): they are '
+                   'read after the nodes that follow the group, so the characters come out of document order and the key '
+                   '`a{,}b` reads `ab,`' % (short(deferred[0], 50) if deferred else ''),
+                   construct='_get_content_as_chars: order')
     # ---- R18r: one separator closes one part
     ctx.rule('R18r', 'split_at_chars: on every path through one turn of the scanning loop a separator closes at most one part '
                      '(one flush), and with keep_empty exactly one: a separator never produces an extra empty part in front of '
